@@ -76,6 +76,8 @@ type End struct {
 	faultDone bool
 	Faulted   bool
 	stalled   bool
+	// StallAt makes the StallAt-th (0-based) and later Writes park until Release (<0: never).
+	StallAt int
 
 	reads, writes int
 	inRead        int
@@ -94,8 +96,8 @@ type End struct {
 func New(a, b string, opts Options) (*End, *End) {
 	p := &Pipe{opts: opts}
 	ab, ba := &half{}, &half{}
-	x := &End{Name: a, p: p, rd: ba, wr: ab}
-	y := &End{Name: b, p: p, rd: ab, wr: ba}
+	x := &End{Name: a, p: p, rd: ba, wr: ab, StallAt: -1}
+	y := &End{Name: b, p: p, rd: ab, wr: ba, StallAt: -1}
 	x.peer, y.peer = y, x
 	return x, y
 }
@@ -107,7 +109,9 @@ func (e *End) Arm(f Fault) { e.fault = &f }
 func (e *End) Stall() { e.p.mon.Do(e.Name+".stall", nil, func() { e.stalled = true }) }
 
 // Release undoes Stall.
-func (e *End) Release() { e.p.mon.Do(e.Name+".release", nil, func() { e.stalled = false }) }
+func (e *End) Release() {
+	e.p.mon.Do(e.Name+".release", nil, func() { e.stalled = false; e.StallAt = -1 })
+}
 
 // StallInit sets the stall flag without a scheduling point (scenario setup).
 func (e *End) StallInit() { e.stalled = true }
@@ -199,7 +203,7 @@ func (e *End) Write(p []byte) (n int, err error) {
 		if e.closed || e.p.dead || e.wr.rclosed {
 			return true
 		}
-		if e.stalled {
+		if e.stalled || (e.StallAt >= 0 && e.writes >= e.StallAt) {
 			return false
 		}
 		c := e.p.opts.Cap
